@@ -1,0 +1,8 @@
+//go:build !verif
+
+package rp
+
+import "context"
+
+// simYield is a no-op unless built with the verif tag (deterministic simulation hooks).
+func simYield(context.Context, string) {}
